@@ -168,7 +168,7 @@ def main():
         qs = quirks_of(v)
         if not qs:
             return "violation"
-        text = row[0] + "\t" + v
+        text = row[0].split(" (schemas", 1)[0] + "\t" + v  # the configured steps + the verdict
         for q in qs:
             f = known_by_id.get("C15/" + q)
             if not f or not re.search(f["match"], text, re.S):
@@ -261,7 +261,7 @@ def main():
         c.violation({"kind": "correspondence-broken", "stream": "xform-strings", "broken": "string helper model differs", "request": bad[0][0][0], "impl": bad[0][0][1], "model": bad[0][1]}, found_input=False)
 
     # 3. single transformations: correspondence, oracle, Lean spec = Go spec, hypotheses predict the real code
-    n1, n2, n3 = (6000, 2500, 600) if c.tier == "quick" else (150000, 60000, 15000)
+    n1, n2, n3 = (6000, 2500, 600) if c.tier == "quick" else (60000, 25000, 8000)
     args = dict(n=n1, seed=c.seed, tier=c.tier)
     rows = harness(hb, "xform-single", **args)
     process(rows, "xform-single", args)
